@@ -168,14 +168,50 @@ func bytesUniverse(t *rapid.T, k Kind, profile string) *universe {
 			key := append(clone(stem), byte(b))
 			return append(key, suf...)
 		}
+		// two-level fans: under some branch bytes of the wide node (its extremes among them) sits a
+		// second wide node with its own window, optionally behind a compressed path
+		var mid []byte
+		start2, width2 := 0, 0
+		if drawInt(t, 0, 2, "fan2") == 0 {
+			mid = stemOf(pick(t, []int{0, 0, 0, 1, 3, 10, 11}, "fanmid"), 9)
+			width2 = pick(t, []int{6, 20, 60, 256}, "fanw2")
+			start2 = pick(t, []int{0x01, 0x30, 0x70, 0xC0, 0xE0}, "fanstart2")
+			if start2+width2 > 256 {
+				start2 = 256 - width2
+			}
+			if start2 == 0 { // no 0x00 inside generated fan keys (alpha keys are 0x00-terminated, KF1)
+				start2, width2 = 1, min(width2, 255)
+			}
+			u.profile = "fan2"
+		}
+		mk2 := func(b1, b2 int, suf []byte) []byte {
+			key := append(clone(stem), byte(b1))
+			key = append(key, mid...)
+			key = append(key, byte(b2))
+			return append(key, suf...)
+		}
+		hub := func(t *rapid.T) int { // branch bytes of the first level that carry a second level
+			return start + pick(t, []int{width - 1, width - 1, 0, width / 2, width - 2}, "hub")%width
+		}
 		u.draw = func(t *rapid.T) []byte {
+			if width2 > 0 && drawInt(t, 0, 1, "lvl2") == 0 {
+				return mk2(hub(t), start2+drawInt(t, 0, width2-1, "fb2"), pick(t, suffixes, "fs"))
+			}
 			return mk(start+drawInt(t, 0, width-1, "fb"), pick(t, suffixes, "fs"))
 		}
 		u.bulk = func(t *rapid.T, n int) [][]byte {
 			var out [][]byte
 			suf := pick(t, suffixes, "bs")
-			first := drawInt(t, 0, width-1, "b0")
 			step := pick(t, []int{1, 1, 3, 7}, "bstep")
+			if width2 > 0 && drawInt(t, 0, 1, "blvl2") == 0 {
+				b1 := hub(t)
+				first := drawInt(t, 0, width2-1, "b0")
+				for i := 0; i < n && i < width2; i++ {
+					out = append(out, mk2(b1, start2+(first+i*step)%width2, suf))
+				}
+				return out
+			}
+			first := drawInt(t, 0, width-1, "b0")
 			for i := 0; i < n && i < width; i++ {
 				out = append(out, mk(start+(first+i*step)%width, suf))
 			}
@@ -257,6 +293,9 @@ var textPools = [][]string{
 	{"ch", "c", "h", "ll", "l", "ñ", "n"},
 	{" ", "-", "_", "."},
 	{"か", "カ", "が", "ｶ"},
+	// code points at the edges of the UTF-8 encoding lengths and of the code space, the replacement
+	// character itself (what a decoder reports for invalid input), format characters
+	{"\uFFFD", "\u007f", "\u0080", "\u07FF", "\u0800", "\uFFFF", "\U00010000", "\U0010FFFF", "\uFEFF", "\u00AD", "\uD7FF", "\uE000"},
 }
 
 var plainPools = [][]string{
@@ -383,7 +422,57 @@ func numUniverse(t *rapid.T, k *numKind) *universe {
 		}
 		return k.Canon(rawOf(rapid.Uint64().Draw(t, "rnd")))
 	}
+	// grid: two adjacent key bytes that both range over a window, so that a wide node sits under a
+	// branch byte (the largest / smallest among them) of another wide node
+	type gridT struct {
+		base           uint64
+		pos            int
+		s1, w1, s2, w2 int
+	}
+	var grid *gridT
+	if drawInt(t, 0, 2, "grid") == 0 {
+		grid = &gridT{base: cl[0].base, pos: drawInt(t, 0, nbytes-2, "gpos"),
+			s1: pick(t, []int{0, 0x10, 0x70, 0xC0}, "gs1"), w1: pick(t, []int{6, 20, 60, 256}, "gw1"),
+			s2: pick(t, []int{0, 0x10, 0x70, 0xC0, 0xE0}, "gs2"), w2: pick(t, []int{6, 20, 60, 256}, "gw2")}
+		u.profile = "numgrid"
+	}
+	mkg := func(i, j int) []byte {
+		sh := uint(8 * (nbytes - 1 - grid.pos))
+		v := grid.base &^ (uint64(0xffff) << (sh - 8))
+		v |= uint64((grid.s1+i%grid.w1)&0xff) << sh
+		v |= uint64((grid.s2+j%grid.w2)&0xff) << (sh - 8)
+		return k.Canon(rawOf(v))
+	}
+	ghub := func(t *rapid.T, w int) int { return pick(t, []int{w - 1, w - 1, 0, w / 2, w - 2}, "ghub") % w }
+	if grid != nil {
+		inner := u.draw
+		u.draw = func(t *rapid.T) []byte {
+			switch drawInt(t, 0, 3, "gsrc") {
+			case 0:
+				return mkg(ghub(t, grid.w1), drawInt(t, 0, grid.w2-1, "gj"))
+			case 1:
+				return mkg(drawInt(t, 0, grid.w1-1, "gi"), ghub(t, grid.w2))
+			}
+			return inner(t)
+		}
+	}
 	u.bulk = func(t *rapid.T, n int) [][]byte {
+		if grid != nil && drawInt(t, 0, 2, "gbulk") != 0 {
+			var out [][]byte
+			first := drawInt(t, 0, 255, "gb0")
+			if drawInt(t, 0, 1, "grow") == 0 {
+				i := ghub(t, grid.w1)
+				for j := 0; j < n && j < grid.w2; j++ {
+					out = append(out, mkg(i, first+j))
+				}
+			} else {
+				j := ghub(t, grid.w2)
+				for i := 0; i < n && i < grid.w1; i++ {
+					out = append(out, mkg(first+i, j))
+				}
+			}
+			return out
+		}
 		c := pick(t, cl, "bcl")
 		low := pick(t, c.lows, "blow")
 		first := drawInt(t, 0, 255, "b0")
